@@ -105,18 +105,28 @@ CLAIMS["C20"] = dict(
     design_ref="DESIGN.md §2 C20",
     note=SHELL_NOTE + " VM::intern_string is stubbed by alloc_string. Out: strings longer than 4 bytes except through the inductive argument; source-level lowering.",
     technique="Kani/CBMC bounded model checking of the string opcode handlers against a first-byte UTF-8 oracle (inductive iteration step)")
+CLAIMS["C07"] = dict(
+    text="One front door only - loading/verification of untrusted function objects: verify_function on an arbitrary function object (first word fully "
+         "symbolic incl. the opcode byte, arbitrary constants, per container shape) returns Ok or Err without panic, out-of-bounds index or overflow; "
+         "OpCode::from_u8 over all 256 bytes never constructs an invalid enum value. Execution of whatever the verifier accepts is C04.",
+    design_ref="DESIGN.md §2 C07",
+    note="Out - most of the property, and stated as such: the binary reader (no verdict in 900 s on a 6-byte symbolic tail), the source lexer (a 5-way symbolic "
+         "choice of a 6-10 character text: no verdict in 1500 s; fully concrete texts would be enumeration of runs, not a solver verdict), parser recursion and "
+         "native stack depth (CBMC has no stack model), sema/optimiser/lowering, assembler text, manifests, allocation volume.",
+    technique="Kani/CBMC bounded model checking of the real bytecode verifier on symbolic function objects")
 
 NOT_APPLICABLE = {
     "C03": "every obligation must execute Heap::mark; on a fully concrete two-object heap CBMC needs ~290 s of symbolic execution and the SAT query does not finish in 14 min (object kinds read back from Vec<Option<GcObject>> are not constant-propagated, every kind's tracing loop and Vec growth is unrolled per worklist step); symbolic heaps are far beyond reach",
     "C08": "the binary reader cannot be symbolically executed within reach: deserialize(serialize(f)) for the smallest function (one word, one immediate constant) gave no verdict in 900 s, and a 6-byte symbolic tail after a fixed header none in 900 s (Cursor/Read plumbing and Vec growth per field); the one reload mechanism in reach, cold call sites, is decided under C05",
     "C11": "a negative reachability statement over HashMap<String,Value> globals, the native registry, module-path resolution, dynamic loading and real file/socket/process FFI; Kani cannot finish three inserts into a string-keyed map (>600 s) and does not model the syscalls",
     "C14": "histories of whole compile-and-run pipelines sharing string-keyed session tables through run_fast, which cannot be executed under CBMC (goto-instrument OOM at 40 GB); the one REPL mechanism in reach (call-site cache reuse) is decided under C05",
+    "C15": "the layout rules live in the source lexer, which cannot be executed on symbolic text within reach: a 5-way symbolic choice of separator in a 6-10 character text gave no verdict in 1500 s (Vec<char>/String traffic per character); running it on fully concrete texts would be enumeration of concrete runs, which this technique family excludes; redundant parentheses need the parser/AST",
     "C16": "hash-map iteration order under a random RandomState and cloning of pipeline stage outputs keyed by (String,u64); Kani must stub the random state to run at all, which removes the nondeterminism in question",
     "C17": "lower/monomorphize are recursive transformations of Box-linked typed ASTs with name-keyed lookups; heap-shape explosion, no bit-level kernel",
     "C19": "file-system directory walks, import graphs and the loader's string tables; no kernel a solver can reach",
 }
 # not yet built (kept current as checks are added)
 PENDING = {p: "check under construction in this session (see DESIGN.md); not claimed until its quick tier passes on the unchanged tree"
-           for p in ["C07", "C15"]}
+           for p in []}
 for _p, _r in PENDING.items():
     NOT_APPLICABLE.setdefault(_p, _r)
